@@ -64,6 +64,6 @@ class YowAuthenticationProtocolLayer(YowProtocolLayer):
         errorType = nodeEntity.getErrorType()
 
         if not errorType:
-            raise NotImplementedError("Unhandled stream:error node:\n%s" % node)
+            logger.warning("Unknown stream:error kind, passing it on:\n%s" % node)
 
         self.toUpper(nodeEntity)
